@@ -157,7 +157,7 @@ type sbox struct {
 	lastCfgOK   bool
 }
 
-type sboxMon struct{ c05, c09, c20, c18, c13 bool }
+type sboxMon struct{ c05, c09, c20, c18, c13, c04 bool }
 
 func newSbox(c *vfCase, schedSeed uint64, mon sboxMon) *sbox {
 	sb := &sbox{c: c, mon: mon, slist: &sboxSList{disabled: true, members: map[string]bool{}}}
